@@ -394,8 +394,9 @@ impl<N, E, H: BuildHasher + Default> DAG<N, E, H> {
       return Err(Error::CycleDetected);
     }
 
-    // Insert forward edge
-    let mut no_prev_edge = self.node_info[src.0].children.insert(*dst);
+    // Insert forward edge. Note: check `contains` first, because `insert` on a `LinkedHashSet` moves an already
+    // existing element to the back, which would change the (insertion) iteration order of the outgoing edges.
+    let mut no_prev_edge = !self.node_info[src.0].children.contains(dst) && self.node_info[src.0].children.insert(*dst);
     let upper_bound = self.node_info[src.0].topo_order;
     // Insert backward edge
     no_prev_edge = no_prev_edge && self.node_info[dst.0].parents.insert(*src);
